@@ -18,7 +18,7 @@ chk.extra['rule'] = ('grammar-directed generator of whole .ff/.itp/.map/.mapping
                      'are generated against toy force fields and compared through the driver; distinct = distinct protocol line')
 quiet_vermouth_logs()
 TABLES = c13_extract.extract()
-chk.lean(['VermouthProps.C13', 'VermouthProps.C13Tables', 'VermouthProps.C13Maps'], 'driver_c13',
+chk.lean(['VermouthProps.C13', 'VermouthProps.C13Tables', 'VermouthProps.C13Maps', 'VermouthProps.C13Dir'], 'driver_c13',
          generated={'C13Tables.lean': c13_extract.render(TABLES)})
 
 import vermouth
@@ -1629,8 +1629,12 @@ run_ff()
 run_itp()
 run_maps()
 c13_mapping.run_mapping(chk, ask)
+_t = time.time()
 c13_dir.run_ffdir(chk, ask, Gen, inject, FAULTS, dump_ff, load_ff, repr_j, pending)
+chk.extra['ffdir_wall_s'] = round(time.time() - _t, 2)
+_t = time.time()
 c13_dir.run_mapdir(chk, ask, backmap_library)
+chk.extra['mapdir_wall_s'] = round(time.time() - _t, 2)
 if chk.thorough:
     run_shipped()
 chk.extra['pending_findings'] = PENDING
